@@ -50,6 +50,8 @@ def sepChars : List Char := ['\t', '\n', '\r']
 
 def noSep (s : Str) : Prop := ∀ c ∈ s, c ∉ sepChars
 
+instance (s : Str) : Decidable (noSep s) := by unfold noSep; infer_instance
+
 theorem digit_noSep : ∀ d : Nat, d < 10 → Char.ofNat (48 + d) ∉ sepChars := by decide
 
 theorem digitsRev_noSep (fuel n : Nat) : noSep (digitsRev fuel n) := by
@@ -120,5 +122,375 @@ theorem natStr_ne_nil (n : Nat) : natStr n ≠ [] := by
   unfold natStr
   simp only [digitsRev, ne_eq, List.reverse_eq_nil_iff]
   exact List.cons_ne_nil _ _
+
+/-! ### C. no tab / LF / CR inside a rendered attribute column; nine columns -/
+
+theorem splitOnChar_ne_nil (sep : Char) (s : Str) : splitOnChar sep s ≠ [] := by
+  induction s with
+  | nil => simp [splitOnChar]
+  | cons c rest ih =>
+    unfold splitOnChar
+    split
+    · simp
+    · split <;> simp
+
+theorem splitOnChar_cons_eq (sep : Char) (rest : Str) :
+    splitOnChar sep (sep :: rest) = [] :: splitOnChar sep rest := by
+  rw [splitOnChar]; simp
+
+theorem splitOnChar_cons_ne {sep c : Char} (h : c ≠ sep) (rest p : Str) (ps : List Str)
+    (hr : splitOnChar sep rest = p :: ps) : splitOnChar sep (c :: rest) = (c :: p) :: ps := by
+  rw [splitOnChar]; simp [h, hr]
+
+/-- `(a + sep + b).split(sep) = a.split(sep) + b.split(sep)` -/
+theorem splitOnChar_append (sep : Char) (a b : Str) :
+    splitOnChar sep (a ++ sep :: b) = splitOnChar sep a ++ splitOnChar sep b := by
+  induction a with
+  | nil =>
+    rw [List.nil_append, splitOnChar_cons_eq]
+    simp [splitOnChar]
+  | cons c a' ih =>
+    simp only [List.cons_append]
+    by_cases hc : c = sep
+    · subst hc
+      rw [splitOnChar_cons_eq, splitOnChar_cons_eq, ih]; rfl
+    · cases h : splitOnChar sep a' with
+      | nil => exact absurd h (splitOnChar_ne_nil sep a')
+      | cons p ps =>
+        rw [splitOnChar_cons_ne hc a' p ps h]
+        rw [splitOnChar_cons_ne hc (a' ++ sep :: b) p (ps ++ splitOnChar sep b) (by rw [ih, h]; rfl)]
+        rfl
+
+theorem splitOnChar_of_not_mem (sep : Char) (s : Str) (h : sep ∉ s) : splitOnChar sep s = [s] := by
+  induction s with
+  | nil => simp [splitOnChar]
+  | cons c rest ih =>
+    have hc : c ≠ sep := fun e => h (by simp [e])
+    have hr : sep ∉ rest := fun e => h (List.mem_cons_of_mem _ e)
+    exact splitOnChar_cons_ne hc rest rest [] (ih hr)
+
+theorem splitOnChar_joinWith (sep : Char) (parts : List Str) (hne : parts ≠ [])
+    (h : ∀ p ∈ parts, sep ∉ p) : splitOnChar sep (joinWith sep parts) = parts := by
+  induction parts with
+  | nil => exact absurd rfl hne
+  | cons a rest ih =>
+    cases rest with
+    | nil => simp only [joinWith]; exact splitOnChar_of_not_mem sep a (h a List.mem_cons_self)
+    | cons b rest' =>
+      simp only [joinWith]
+      rw [splitOnChar_append, splitOnChar_of_not_mem sep a (h a List.mem_cons_self)]
+      have := ih (by simp) (fun p hp => h p (List.mem_cons_of_mem _ hp))
+      rw [this]; rfl
+
+theorem noSep_of_wellEscaped {r : List Char} (hr : ∀ c ∈ sepChars, r.contains c = true) {s : Str}
+    (h : wellEscaped r s = true) : noSep s := by
+  intro c hc hs
+  unfold wellEscaped at h
+  simp only [Bool.and_eq_true, List.all_eq_true] at h
+  have := h.1 c hc
+  rw [hr c hs] at this
+  simp at this
+
+theorem noSep_append {a b : Str} (ha : noSep a) (hb : noSep b) : noSep (a ++ b) := by
+  intro c hc
+  rcases List.mem_append.mp hc with h | h
+  · exact ha c h
+  · exact hb c h
+
+theorem noSep_cons {c : Char} {s : Str} (hc : c ∉ sepChars) (hs : noSep s) : noSep (c :: s) := by
+  intro d hd
+  rcases List.mem_cons.mp hd with rfl | h
+  · exact hc
+  · exact hs d h
+
+theorem noSep_joinWith {sep : Char} (hsep : sep ∉ sepChars) {parts : List Str} (h : ∀ p ∈ parts, noSep p) :
+    noSep (joinWith sep parts) := by
+  induction parts with
+  | nil => intro c hc; simp [joinWith] at hc
+  | cons a rest ih =>
+    cases rest with
+    | nil => simp only [joinWith]; exact h a List.mem_cons_self
+    | cons b rest' =>
+      simp only [joinWith]
+      refine noSep_append (h a List.mem_cons_self) (noSep_cons hsep ?_)
+      have := ih (fun p hp => h p (List.mem_cons_of_mem _ hp))
+      simpa only [joinWith] using this
+
+theorem structural_has_sep : ∀ c ∈ sepChars, structural.contains c = true := by decide
+theorem structuralValue_has_sep : ∀ c ∈ sepChars, structuralValue.contains c = true := by decide
+
+theorem escapeKey_wellEscaped (k : Str) (lower : Bool) : wellEscaped structural (escapeKey k lower) = true := by
+  unfold escapeKey
+  cases lower
+  · simp only [Bool.false_eq_true, if_false]; exact wellEscaped_escapeWith gffEncodingMap_good k
+  · simp only [if_true]
+    exact wellEscaped_lower_escapeWith gffEncodingMap_good structural_lower_closed k
+
+theorem escapeValue_wellEscaped (v : Str) (comma : Bool) :
+    wellEscaped (if comma then structuralValue else structural) (escapeValue v comma) = true := by
+  unfold escapeValue
+  cases comma
+  · simp only [Bool.false_eq_true, if_false]
+    split
+    · exact wellEscaped_escapeWith gffEncodingMap_good v
+    · simp [wellEscaped, nan, percentsOk, structural]
+  · simp only [if_true]
+    split
+    · exact wellEscaped_escapeWith gffEncodingMapWithComma_good v
+    · simp [wellEscaped, nan, percentsOk, structuralValue]
+
+theorem escapeKey_noSep (k : Str) (lower : Bool) : noSep (escapeKey k lower) :=
+  noSep_of_wellEscaped structural_has_sep (escapeKey_wellEscaped k lower)
+
+theorem escapeValue_noSep (v : Str) (comma : Bool) : noSep (escapeValue v comma) := by
+  have := escapeValue_wellEscaped v comma
+  cases comma
+  · exact noSep_of_wellEscaped structural_has_sep this
+  · exact noSep_of_wellEscaped structuralValue_has_sep this
+
+theorem qualPairs_noSep (raise : Bool) (q : Quals) (l : List (Str × Str)) (h : qualPairs raise q = .ok l) :
+    ∀ p ∈ l, noSep p.1 ∧ noSep p.2 := by
+  induction q generalizing l with
+  | nil =>
+    simp only [qualPairs] at h
+    cases h
+    intro p hp; simp at hp
+  | cons kv rest ih =>
+    obtain ⟨key, vals⟩ := kv
+    simp only [qualPairs] at h
+    split at h
+    · exact ih l h
+    · split at h
+      · split at h
+        · cases h
+        · exact ih l h
+      · cases hm : qualPairs raise rest with
+        | error e => rw [hm] at h; cases h
+        | ok more =>
+          rw [hm] at h
+          simp only [bind, Except.bind, pure, Except.pure] at h
+          cases h
+          intro p hp
+          rcases List.mem_cons.mp hp with rfl | hp'
+          · refine ⟨?_, ?_⟩
+            · simp only
+              split <;> exact escapeKey_noSep _ _
+            · simp only
+              refine noSep_joinWith (by decide) ?_
+              intro v hv
+              have hv' : v ∈ vals.map fun v => escapeValue v false := by
+                unfold sortStrs at hv
+                exact List.mem_mergeSort.mp hv
+              obtain ⟨w, _, rfl⟩ := List.mem_map.mp hv'
+              exact escapeValue_noSep w false
+          · exact ih more hm p hp'
+
+theorem kID_noSep : noSep kID := by decide
+theorem kParent_noSep : noSep kParent := by decide
+theorem kName_noSep : noSep kName := by decide
+
+theorem attrsStr_noSep (a : Attrs) (s : Str) (h : attrsStr a = .ok s) : noSep s := by
+  unfold attrsStr at h
+  cases hq : qualPairs a.raiseOnReserved (sortQuals a.quals) with
+  | error e => rw [hq] at h; cases h
+  | ok tail =>
+    rw [hq] at h
+    simp only [bind, Except.bind, pure, Except.pure] at h
+    cases h
+    refine noSep_joinWith (by decide) ?_
+    intro piece hp
+    obtain ⟨p, hp', rfl⟩ := List.mem_map.mp hp
+    have hpair : noSep p.1 ∧ noSep p.2 := by
+      rcases List.mem_append.mp hp' with h1 | h2
+      · rcases List.mem_append.mp h1 with h1 | h3
+        · rcases List.mem_append.mp h1 with h1 | h4
+          · simp only [List.mem_singleton] at h1
+            subst h1
+            exact ⟨kID_noSep, escapeValue_noSep a.id true⟩
+          · split at h4
+            · simp only [List.mem_singleton] at h4; subst h4; exact ⟨kParent_noSep, escapeValue_noSep _ true⟩
+            · simp at h4
+        · split at h3
+          · simp only [List.mem_singleton] at h3; subst h3; exact ⟨kName_noSep, escapeValue_noSep _ true⟩
+          · simp at h3
+      · exact qualPairs_noSep _ _ _ hq p h2
+    exact noSep_append hpair.1 (noSep_cons (by decide) hpair.2)
+
+/-- no line terminator -/
+def noLine (s : Str) : Prop := ∀ c ∈ s, c ≠ '\n' ∧ c ≠ '\r'
+
+theorem noLine_of_noSep {s : Str} (h : noSep s) : noLine s := by
+  intro c hc
+  exact ⟨fun e => h c hc (by rw [e]; decide), fun e => h c hc (by rw [e]; decide)⟩
+
+theorem noLine_joinWith {sep : Char} (hsep : sep ≠ '\n' ∧ sep ≠ '\r') {parts : List Str}
+    (h : ∀ p ∈ parts, noLine p) : noLine (joinWith sep parts) := by
+  induction parts with
+  | nil => intro c hc; simp [joinWith] at hc
+  | cons a rest ih =>
+    cases rest with
+    | nil => simp only [joinWith]; exact h a List.mem_cons_self
+    | cons b rest' =>
+      simp only [joinWith]
+      intro c hc
+      rcases List.mem_append.mp hc with h1 | h1
+      · exact h a List.mem_cons_self c h1
+      · rcases List.mem_cons.mp h1 with rfl | h2
+        · exact hsep
+        · exact ih (fun p hp => h p (List.mem_cons_of_mem _ hp)) c h2
+
+theorem tab_not_mem_of_noSep {s : Str} (h : noSep s) : '\t' ∉ s := fun hc => h _ hc (by decide)
+
+/-- T2 (text): a rendered row splits on TAB into exactly its nine columns, provided the sequence name has no
+    tab / LF / CR (column 1 is not escaped by the writer). -/
+theorem rowStr_nine_columns (r : Row) (line : Str) (h : rowStr r = .ok line) (hseq : noSep r.seqid) :
+    ∃ a, attrsStr r.attrs = .ok a ∧ noLine line ∧
+      splitOnChar '\t' line = [r.seqid, gffSource, r.type.value, natStr r.start, natStr r.stop, nullColumn,
+                                strandSymbol r.strand, phaseToGff r.phase, a] := by
+  unfold rowStr at h
+  cases ha : attrsStr r.attrs with
+  | error e => rw [ha] at h; cases h
+  | ok a =>
+    rw [ha] at h
+    simp only [bind, Except.bind, pure, Except.pure] at h
+    cases h
+    have hall : ∀ p ∈ [r.seqid, gffSource, r.type.value, natStr r.start, natStr r.stop, nullColumn,
+        strandSymbol r.strand, phaseToGff r.phase, a], noSep p := by
+      intro p hp
+      simp only [List.mem_cons, List.mem_nil_iff, or_false] at hp
+      rcases hp with rfl | rfl | rfl | rfl | rfl | rfl | rfl | rfl | rfl
+      · exact hseq
+      · decide
+      · cases r.type <;> decide
+      · exact natStr_noSep _
+      · exact natStr_noSep _
+      · decide
+      · cases r.strand <;> decide
+      · cases r.phase <;> decide
+      · exact attrsStr_noSep _ _ ha
+    refine ⟨a, rfl, ?_, ?_⟩
+    · exact noLine_joinWith (by decide) (fun p hp => noLine_of_noSep (hall p hp))
+    · exact splitOnChar_joinWith '\t' _ (by simp) (fun p hp => tab_not_mem_of_noSep (hall p hp))
+
+/-! ### D. well-formed sources; where every emitted row comes from -/
+
+/-- ascending, non-empty, non-overlapping blocks (0-bp gaps allowed) -/
+def goodBlocks : List Blk → Bool
+  | [] => true
+  | [a] => decide (a.1 < a.2)
+  | a :: b :: rest => decide (a.1 < a.2) && decide (a.2 ≤ b.1) && goodBlocks (b :: rest)
+
+theorem goodBlocks_tail {a : Blk} {rest : List Blk} (h : goodBlocks (a :: rest) = true) : goodBlocks rest = true := by
+  cases rest with
+  | nil => rfl
+  | cons b r => simp only [goodBlocks, Bool.and_eq_true] at h; exact h.2
+
+theorem goodBlocks_head {a : Blk} {rest : List Blk} (h : goodBlocks (a :: rest) = true) : a.1 < a.2 := by
+  cases rest with
+  | nil => simpa [goodBlocks] using h
+  | cons b r => simp only [goodBlocks, Bool.and_eq_true, decide_eq_true_eq] at h; exact h.1.1
+
+/-- every block of a good list lies between the first start and the last end, and is non-empty -/
+theorem goodBlocks_bounds {bs : List Blk} (h : goodBlocks bs = true) :
+    ∀ b ∈ bs, firstStart bs ≤ b.1 ∧ b.1 < b.2 ∧ b.2 ≤ lastEnd bs := by
+  induction bs with
+  | nil => intro b hb; simp at hb
+  | cons a rest ih =>
+    intro b hb
+    have ha := goodBlocks_head h
+    cases rest with
+    | nil =>
+      simp only [List.mem_singleton] at hb
+      subst hb
+      simp only [firstStart, lastEnd]
+      omega
+    | cons c r =>
+      have hrest := goodBlocks_tail h
+      have hac : a.2 ≤ c.1 := by
+        simp only [goodBlocks, Bool.and_eq_true, decide_eq_true_eq] at h; exact h.1.2
+      rcases List.mem_cons.mp hb with rfl | hb'
+      · have := ih hrest c List.mem_cons_self
+        simp only [firstStart, lastEnd] at this ⊢
+        omega
+      · have := ih hrest b hb'
+        simp only [firstStart, lastEnd] at this ⊢
+        omega
+
+theorem goodBlocks_span {bs : List Blk} (h : goodBlocks bs = true) (hne : bs ≠ []) : firstStart bs < lastEnd bs := by
+  cases bs with
+  | nil => exact absurd rfl hne
+  | cons a rest =>
+    have := goodBlocks_bounds h a List.mem_cons_self
+    simp only [firstStart] at this ⊢
+    omega
+
+theorem minNat_le {l : List Nat} {x : Nat} (h : x ∈ l) : minNat l ≤ x := by
+  induction l with
+  | nil => simp at h
+  | cons a rest ih =>
+    cases rest with
+    | nil => simp only [List.mem_singleton] at h; subst h; simp [minNat]
+    | cons b r =>
+      simp only [minNat]
+      rcases List.mem_cons.mp h with rfl | h'
+      · exact Nat.min_le_left _ _
+      · exact Nat.le_trans (Nat.min_le_right _ _) (ih h')
+
+theorem le_maxNat {l : List Nat} {x : Nat} (h : x ∈ l) : x ≤ maxNat l := by
+  induction l with
+  | nil => simp at h
+  | cons a rest ih =>
+    cases rest with
+    | nil => simp only [List.mem_singleton] at h; subst h; simp [maxNat]
+    | cons b r =>
+      simp only [maxNat]
+      rcases List.mem_cons.mp h with rfl | h'
+      · exact Nat.le_max_left _ _
+      · exact Nat.le_trans (ih h') (Nat.le_max_right _ _)
+
+/-- the minimum of a non-empty list is one of its elements -/
+theorem minNat_mem {l : List Nat} (h : l ≠ []) : minNat l ∈ l := by
+  induction l with
+  | nil => exact absurd rfl h
+  | cons a rest ih =>
+    cases rest with
+    | nil => simp [minNat]
+    | cons b r =>
+      simp only [minNat]
+      have := ih (by simp)
+      rcases Nat.le_total a (minNat (b :: r)) with hle | hle
+      · rw [Nat.min_eq_left hle]; exact List.mem_cons_self
+      · rw [Nat.min_eq_right hle]; exact List.mem_cons_of_mem _ this
+
+theorem mem_enumFrom1 {α} {l : List α} {p : Nat × α} (h : p ∈ enumFrom1 l) : p.2 ∈ l ∧ 1 ≤ p.1 ∧ p.1 ≤ l.length := by
+  unfold enumFrom1 at h
+  obtain ⟨q, hq, rfl⟩ := List.mem_map.mp h
+  have := List.of_mem_zip hq
+  have h1 := List.mem_range.mp this.1
+  exact ⟨this.2, by simp, by simp; omega⟩
+
+/-- a CDS block with its frame, coordinates inside the transcript -/
+def cdsWF (t : STx) (k : SCds) : Bool :=
+  goodBlocks k.blocks && k.blocks.all (fun b => decide (firstStart t.exons ≤ b.1)) &&
+  k.frames.length == k.blocks.length && k.frames.all (· != .NONE)
+
+/-- what `TranscriptInterval.__init__` is given in the property's quantifier: ascending non-empty exons starting at
+    or after the chunk offset; CDS blocks ascending, non-empty, not before the first exon; one frame per block -/
+def txWF (off : Nat) (t : STx) : Bool :=
+  !t.exons.isEmpty && goodBlocks t.exons && decide (off ≤ firstStart t.exons) &&
+  (match t.cds with | none => true | some k => cdsWF t k)
+
+def geneWF (off : Nat) (g : SGene) : Bool := !g.txs.isEmpty && g.txs.all (txWF off)
+
+def featWF (off : Nat) (f : SFeat) : Bool :=
+  !f.blocks.isEmpty && goodBlocks f.blocks && decide (off ≤ firstStart f.blocks)
+
+def fcWF (off : Nat) (c : SFc) : Bool := !c.feats.isEmpty && c.feats.all (featWF off)
+
+def childWF (off : Nat) : SChild → Bool
+  | .gene g => geneWF off g
+  | .fc c => fcWF off c
+
+def collWF (off : Nat) (c : SColl) : Bool := c.children.all (childWF off)
 
 end BioCantor.Proofs.GffRows
